@@ -587,29 +587,91 @@ pub fn drive(check: Check, tier: &str, seed: i64) -> i32 {
     let mut exit = 0;
     let mut n_viol = 0;
     let mut printed = 0;
+    // candidates per key, smallest (family, idx) first
+    let mut cands: BTreeMap<String, Vec<&Found>> = BTreeMap::new();
+    for f in &found {
+        let v = cands.entry(f.v.key.clone()).or_default();
+        if v.len() < 6 {
+            v.push(f);
+        }
+    }
     let mut keys: Vec<(&String, &&Found)> = by_key.iter().collect();
     keys.sort_by(|a, b| (a.1.fam, a.1.idx).cmp(&(b.1.fam, b.1.idx)));
-    for (key, f) in keys {
-        // determinism gate: the same scenario must fail the same way twice more
-        for _ in 0..2 {
-            let mut st = Stats::default();
-            let again = guarded(|| run_one(check.families[f.fam].as_ref(), f.idx, &mut st));
-            let same = match &again {
-                Ok(Err(v)) => v.key == f.v.key && v.msg == f.v.msg,
-                _ => false,
-            };
-            if !same {
-                eprintln!(
-                    "MACHINERY ERROR property={}: scenario {}#{} is not deterministic (first: {} / again: {:?})",
-                    check.id,
-                    check.families[f.fam].name(),
-                    f.idx,
-                    f.v.msg,
-                    again.map(|r| r.err().map(|v| v.msg))
-                );
-                return 2;
+    let mut unreproducible: Vec<String> = Vec::new();
+    // an alarm that does not repeat when its scenario is run again on its own may still be real:
+    // the implementation may keep state between connections served by one thread. Such an alarm
+    // counts only if it repeats, twice, on a fresh thread that first runs the k scenarios
+    // enumerated before it (the order in which a worker meets them) - the history is then part of
+    // the replay artefact.
+    let after_predecessors = |f: &Found| -> Option<u64> {
+        for k in [1u64, 2, 3, 5, 8, 16, 32] {
+            if k > f.idx {
+                break;
+            }
+            let mut all_same = true;
+            for _ in 0..2 {
+                let fam = check.families[f.fam].as_ref();
+                let (idx, key, msg) = (f.idx, f.v.key.clone(), f.v.msg.clone());
+                let same = std::thread::scope(|sc| {
+                    sc.spawn(move || {
+                        let mut st = Stats::default();
+                        for j in idx - k..idx {
+                            let _ = guarded(|| run_one(fam, j, &mut st));
+                        }
+                        matches!(guarded(|| run_one(fam, idx, &mut st)), Ok(Err(v)) if v.key == key && v.msg == msg)
+                    })
+                    .join()
+                    .unwrap_or(false)
+                });
+                if !same {
+                    all_same = false;
+                    break;
+                }
+            }
+            if all_same {
+                return Some(k);
             }
         }
+        None
+    };
+    let mut history_notes: BTreeMap<String, u64> = BTreeMap::new();
+    let mut chosen: Vec<(&String, &Found)> = Vec::new();
+    for (key, _) in keys {
+        let mut pick: Option<&Found> = None;
+        for f in &cands[key] {
+            // determinism gate: the same scenario must fail the same way twice more
+            let mut same = true;
+            for _ in 0..2 {
+                let mut st = Stats::default();
+                let again = guarded(|| run_one(check.families[f.fam].as_ref(), f.idx, &mut st));
+                same = matches!(&again, Ok(Err(v)) if v.key == f.v.key && v.msg == f.v.msg);
+                if !same {
+                    break;
+                }
+            }
+            if same {
+                pick = Some(f);
+                break;
+            }
+            if let Some(k) = after_predecessors(f) {
+                history_notes.insert(key.clone(), k);
+                pick = Some(f);
+                break;
+            }
+        }
+        match pick {
+            Some(f) => chosen.push((key, f)),
+            None => unreproducible.push(format!("{} [{}#{}]: {}", key, check.families[cands[key][0].fam].name(), cands[key][0].idx, cands[key][0].v.msg.chars().take(300).collect::<String>())),
+        }
+    }
+    if chosen.is_empty() && !unreproducible.is_empty() {
+        eprintln!("MACHINERY ERROR property={}: {} alarm(s), none repeats - neither on its own nor after the scenarios enumerated before it; first: {}", check.id, unreproducible.len(), unreproducible[0]);
+        return 2;
+    }
+    for u in &unreproducible {
+        println!("NOTE property={}: a further alarm did not repeat and is not counted: {}", check.id, u);
+    }
+    for (key, f) in chosen {
         if let Some((_, what)) = known.iter().find(|(k, _)| k == key) {
             println!("KNOWN-FINDING: property={} {} [{}]", check.id, what, key);
             continue;
@@ -630,11 +692,15 @@ pub fn drive(check: Check, tier: &str, seed: i64) -> i32 {
                 "message": f.v.msg,
                 "scenario": check.families[f.fam].describe(f.idx),
                 "detail": f.v.detail,
+                "repeats_only_after_the_preceding_scenarios": history_notes.get(key),
                 "replay": format!("/verif/check {} replay {}", check.id, path),
             });
             std::fs::write(&path, serde_json::to_string_pretty(&art).unwrap()).unwrap();
             println!("VIOLATION property={} replay={}", check.id, path);
             println!("  {} [{}#{}]: {}", f.v.key, check.families[f.fam].name(), f.idx, f.v.msg);
+            if let Some(k) = history_notes.get(key) {
+                println!("  (the outcome depends on what the same thread served before: it repeats, twice, on a fresh thread that first runs scenarios #{}..#{} of the family)", f.idx - k, f.idx - 1);
+            }
         }
     }
 
@@ -752,6 +818,12 @@ pub fn replay(check: Check, file: &str) -> i32 {
     println!("replaying {} {}#{}", check.id, famname, idx);
     println!("scenario: {}", serde_json::to_string_pretty(&fam.describe(idx)).unwrap());
     let mut st = Stats::default();
+    if let Some(k) = j["repeats_only_after_the_preceding_scenarios"].as_u64() {
+        println!("first running scenarios #{}..#{} of the family on this thread (the alarm depends on what the thread served before)", idx - k, idx - 1);
+        for p in idx - k..idx {
+            let _ = guarded(|| run_one(fam.as_ref(), p, &mut st));
+        }
+    }
     match guarded(|| run_one(fam.as_ref(), idx, &mut st)) {
         Ok(Ok(())) => {
             println!("result: property holds on this scenario");
